@@ -40,15 +40,23 @@ def free_consts(terms):
 _BODY_CACHE = {}
 
 
+_KEEPALIVE = []          # z3 ast ids are only unique among live terms: every term whose id enters a cache key is kept alive
+
+
+def tid(t):
+    _KEEPALIVE.append(t)
+    return t.get_id()
+
+
 def value_key(v):
     if isinstance(v, Z):
-        return ("z", v.t.get_id(), id(v.cls))
+        return ("z", tid(v.t), id(v.cls))
     if isinstance(v, ZBool):
-        return ("b", v.b.get_id())
+        return ("b", tid(v.b))
     if isinstance(v, ZInt):
-        return ("i", v.i.get_id())
+        return ("i", tid(v.i))
     if isinstance(v, ZSeq):
-        return ("s", v.s.get_id(), v.kind)
+        return ("s", tid(v.s), v.kind)
     if isinstance(v, C):
         x = v.v
         return ("c", x) if isinstance(x, (type(None), bool, int, float, str)) else ("co", id(x))
@@ -56,7 +64,7 @@ def value_key(v):
         return ("t",) + tuple(value_key(i) for i in v.items)
     if isinstance(v, LList):
         if not v.concrete:
-            return ("l", v.seq.get_id(), v.fresh)
+            return ("l", tid(v.seq), v.fresh)
         return ("lc", v.fresh) + tuple(value_key(i) for i in v.items)
     if isinstance(v, LDict):
         return ("d", v.fresh) + tuple((value_key(k), value_key(x)) for k, x in v.pairs)
@@ -94,6 +102,7 @@ def explore_body(ip, thunk, context_free=True):
     from .interp import Interp, PyRaise
     outer = ip.path
     eng = Engine(feas_timeout_ms=outer.engine.feas_timeout_ms)
+    eng.no_feasibility = outer.engine.no_feasibility
     base = 0 if context_free else len(outer.pc)
     outcomes = []
 
@@ -105,10 +114,16 @@ def explore_body(ip, thunk, context_free=True):
         base_pc = [] if context_free else list(outer.pc)
         p.pc = list(base_pc)
         p._solver, p._synced = None, 0
+        p._atoms, p._atoms_synced = set(), 0
+        p._const_choice = dict(outer.__dict__.get("_const_choice", {}))
         sub = Interp(p, ip.program, ip.contracts, ip.verifying)
         sub.depth = ip.depth
         sub.modifies_ok = ip.modifies_ok
         sub.clause_mode = getattr(ip, "clause_mode", None)
+        sub._active_closures = ip.__dict__.setdefault("_active_closures", [])
+        sub._try_depth = ip.__dict__.setdefault("_try_depth", [0])
+        sub.frame_only = getattr(ip, "frame_only", False)
+        sub.opaque_objects = getattr(ip, "opaque_objects", False)
         try:
             v = thunk(sub)
             out = ("val", v)
@@ -445,6 +460,8 @@ def fold_seq(ip, fname, seq):
 
 
 def sorted_seq(ip, xs, key, kwargs):
+    if getattr(ip, "frame_only", False):
+        return LList(None, V.fresh("sorted", V.VS), fresh=True)
     raise Unsupported("sorted over a symbolic sequence")
 
 
